@@ -234,9 +234,11 @@ def many(rng, f, pfx, lo=0, hi=3):
         out += f(rng, pfx)
     return out
 
+# (the prefixed ones are attributes of OTHER namespaces that share the local name of an attribute
+# the reader looks for: they stand in front of the unqualified one and are not it)
 ROW_EXTRA = [("spans", "1:3"), ("ht", "15"), ("customHeight", "1"), ("s", "1"), ("customFormat", "1"),
-             ("x14ac:dyDescent", "0.25"), ("hidden", "0")]
-CELL_EXTRA = [("cm", "1"), ("vm", "0"), ("ph", "1")]
+             ("x14ac:dyDescent", "0.25"), ("hidden", "0"), ("rv:r", "99"), ("xr:r", "A7")]
+CELL_EXTRA = [("cm", "1"), ("vm", "0"), ("ph", "1"), ("rv:r", "Z99"), ("rv:t", "b"), ("rv:s", "1"), ("xr:uid", "{00}")]
 
 # ------------------------------------------------------------------ values
 NUMBERS = ["0", "1", "-1", "42", "3.14159", "-2.5", "1E5", "1e-7", "0.1", "123456789012345678", "1.7976931348623157E308",
@@ -405,7 +407,10 @@ def gen_sheet(rng, env, profile=None, legal=True, pfx=None):
         a, b = rng.randrange(0, 50), rng.randrange(0, 30)
         dim = rng.choice([(0, 0), (a, b), (a, b, a + rng.randrange(0, 5), b + rng.randrange(0, 5)),
                           (0, 0, MAX_ROW, MAX_COL), (5, 5, 6, 6)])
-    nsdecl = [("xmlns:%s" % pfx if pfx else "xmlns", NS_MAIN), ("xmlns:r", NS_REL)]
+    nsdecl = [("xmlns:%s" % pfx if pfx else "xmlns", NS_MAIN), ("xmlns:r", NS_REL),
+              ("xmlns:rv", "http://schemas.microsoft.com/office/spreadsheetml/2017/richdata"),
+              ("xmlns:xr", "http://schemas.microsoft.com/office/spreadsheetml/2014/revision"),
+              ("xmlns:x14ac", "http://schemas.microsoft.com/office/spreadsheetml/2009/9/ac")]
     pre = [O] + ([ws(rng)] if rng.random() < 0.2 else []) + [S(qn(pfx, "worksheet"), nsdecl)] + many(rng, frag_pre, pfx, 0, 2)
     pre2 = many(rng, frag_pre, pfx, 0, 3)
     post = many(rng, frag_post, pfx, 0, 3) + [E(qn(pfx, "worksheet"))]
